@@ -428,6 +428,17 @@ func gen(r *vlib.R, n int, tier string, emit func(string)) {
 		emit(fmt.Sprintf("usrv spell %s %d %s", []string{"udp", "tcp"}[i%2], r.U64()%1000000, strings.Join(ks, ",")))
 		n--
 	}
+	for i := 0; i < 6; i++ {
+		pat := make([]byte, 2+r.Intn(8))
+		for j := range pat {
+			pat[j] = vlib.Pick(r, []byte{'c', 'c', 'c', 'n', 'p', 's'})
+		}
+		if i < 2 {
+			pat = []byte("ccnc")
+		}
+		emit(fmt.Sprintf("usrv rl %s %s", []string{"udp", "msg"}[i%2], pat))
+		n--
+	}
 	for i := 0; i < 8; i++ {
 		var ops []string
 		for j, k := 0, 3+r.Intn(14); j < k; j++ {
